@@ -102,33 +102,32 @@ structure FlushRes where
 
 def btou8 (a : Bool) : UInt8 := if a then 1 else 0
 
-/-- `func (e *Encoder) flush(w, ej, final) error` -/
-def flush (e : Enc) (w : Writer) (ej : Nat) (final : Bool) : FlushRes :=
-  -- Update the IDAT chunk length placeholder.
-  let first := rd e.buf 0x0004 == 0x0D
-  let idatChunkLen := (if first then ej - 0x0029 else ej - 0x0008) + (if final then 4 else 0)
-  let e := e.blit (if first then 0x0021 else 0x0000) (be32 idatChunkLen)
-  let crc32Start := if first then 0x0025 else 0x0004
-  let ei := if first then eiFirst else eiLater
-  -- Update the DEFLATE uncompressed block header placeholder.
+/-- `flush`, "Update the DEFLATE uncompressed block header placeholder." -/
+def blockHeader (e : Enc) (ei ej : Nat) (final : Bool) : Enc :=
   let deflateBlockLen := ej - ei
-  let e := e.blit (ei - 5) [btou8 final,
+  e.blit (ei - 5) [btou8 final,
     UInt8.ofNat deflateBlockLen, UInt8.ofNat (deflateBlockLen >>> 8),
     (0xFF : UInt8) ^^^ UInt8.ofNat deflateBlockLen, (0xFF : UInt8) ^^^ UInt8.ofNat (deflateBlockLen >>> 8)]
-  -- Update (and maybe write) the Adler-32 checksum.
-  let e := updateAdler32 e ei ej
-  let e := if final then
-      let e := e.set (ej + 0) (rd e.buf 0xFFFC)
-      let e := e.set (ej + 1) (rd e.buf 0xFFFD)
-      let e := e.set (ej + 2) (rd e.buf 0xFFFE)
-      e.set (ej + 3) (rd e.buf 0xFFFF)
-    else e
-  let ej := if final then ej + 4 else ej
-  -- Write the CRC-32/IEEE checksum (the slice e.buf[crc32Start:ej] needs ej ≤ len).
+
+/-- `flush`, "(and maybe write) the Adler-32 checksum": `if final { e.buf[ej+i] = e.buf[0xFFFC+i]; ej += 4 }`;
+returns the encoder and the new `ej`. -/
+def appendAdler (e : Enc) (ej : Nat) (final : Bool) : Enc × Nat :=
+  if final then
+    let e := e.set (ej + 0) (rd e.buf 0xFFFC)
+    let e := e.set (ej + 1) (rd e.buf 0xFFFD)
+    let e := e.set (ej + 2) (rd e.buf 0xFFFE)
+    (e.set (ej + 3) (rd e.buf 0xFFFF), ej + 4)
+  else (e, ej)
+
+/-- `flush`, "Write the CRC-32/IEEE checksum." (the slice `e.buf[crc32Start:ej]` needs `ej ≤ len`);
+returns the encoder and `ej + 4`. -/
+def appendCRC (e : Enc) (crc32Start ej : Nat) : Enc × Nat :=
   let e := if ej > e.buf.size then { e with oob := true } else e
   let idatCRC32 := crc32IEEE e.buf crc32Start ej
-  let e := e.blit ej (be32 idatCRC32.toNat)
-  let ej := ej + 4
+  (e.blit ej (be32 idatCRC32.toNat), ej + 4)
+
+/-- `flush`, from `if !final {` to the end: the `Write` calls, re-arming `IDAT`, the `IEND` chunk. -/
+def emit (e : Enc) (w : Writer) (ej : Nat) (final : Bool) : FlushRes :=
   if !final then
     let e := if ej > e.buf.size then { e with oob := true } else e
     let r := w.write (e.buf.extract 0 ej)
@@ -146,6 +145,25 @@ def flush (e : Enc) (w : Writer) (ej : Nat) (final : Bool) : FlushRes :=
       let r2 := r.1.write (e.buf.extract 0 12)
       ⟨e, r2.1, r2.2⟩
     else ⟨e, r.1, true⟩
+
+/-- The part of `flush` after the `if e.buf[0x0004] == 0x0D { … } else { … }`, which has stored the
+big-endian `idatChunkLen` and chosen `crc32Start` and `ei`. -/
+def flushTail (e : Enc) (w : Writer) (ej : Nat) (final : Bool) (crc32Start ei : Nat) : FlushRes :=
+  let e := blockHeader e ei ej final
+  let e := updateAdler32 e ei ej
+  let r := appendAdler e ej final
+  let r := appendCRC r.1 crc32Start r.2
+  emit r.1 w r.2 final
+
+/-- `func (e *Encoder) flush(w, ej, final) error` -/
+def flush (e : Enc) (w : Writer) (ej : Nat) (final : Bool) : FlushRes :=
+  -- Update the IDAT chunk length placeholder.
+  if rd e.buf 0x0004 == 0x0D then -- First IDAT chunk.
+    let idatChunkLen := ej - 0x0029 + (if final then 4 else 0)
+    flushTail (e.blit 0x0021 (be32 idatChunkLen)) w ej final 0x0025 eiFirst
+  else -- Later IDAT chunk.
+    let idatChunkLen := ej - 0x0008 + (if final then 4 else 0)
+    flushTail (e.blit 0x0000 (be32 idatChunkLen)) w ej final 0x0004 eiLater
 
 /-- State of the loops of `Encode`: encoder, writer, the local `ej`, and `ok = false` once the
 loop has stopped early (writer error, or panic when `e.oob`). -/
